@@ -5,6 +5,8 @@ import (
 	"sync"
 
 	"github.com/libp2p/go-libp2p/core/peer"
+
+	"github.com/ipfs/go-graphsync/verifhook"
 )
 
 // PeerProcess is any process that provides services for a peer
@@ -78,6 +80,7 @@ func (pm *PeerManager) Disconnected(p peer.ID) {
 	delete(pm.peerProcesses, p)
 	pm.peerProcessesLk.Unlock()
 
+	verifhook.Yield("pm.disconnected.beforeShutdown")
 	if pprocess, ok := pq.process.(PeerProcess); ok {
 		pprocess.Shutdown()
 	}
